@@ -125,6 +125,10 @@ fn main() {
     if prop == "c15" {
         strict_err = Some(c15::generate(&mut s, thorough));
     }
+    #[cfg(feature = "c15b")]
+    if prop == "c15b" {
+        strict_err = Some(c15b::generate(&mut s, thorough));
+    }
     #[cfg(feature = "c16")]
     if prop == "c16" {
         strict_err = Some(c16::generate(&mut s, thorough));
